@@ -31,7 +31,8 @@ func init() {
 			"P-limit — in the callback every action that can lose results (stopping the enumeration, shrinking res.Blobs) is on the matcher-error path or under the fact cands.sorted. " +
 			"P-postsort — with an unsorted source, for every SortType constant that requests an order, every path from the enumeration to a return of a non-nil result passes a sort call (or the query is refused with an error). " +
 			"P-truncate — with an unsorted source, 0 < Limit < len(res.Blobs) and any sort but MapSort, every such path truncates res.Blobs by a bounded slice. " +
-			"NOT decided: the meaning of each leaf constraint and of the leaf cases of the predicates (e.g. that a camliNodeType attribute constraint only matches that node type), matcher semantics per constraint kind, that the enumerators really enumerate a superset in the claimed order and without duplicates, the sort comparators and which slice is sorted, the Around window arithmetic, MapSort selection, any concrete world or query.",
+			"P-nodup — every corpus enumerator a source is built from hands each blob to the callback at most once as far as its loop structure shows: the callback is invoked (directly or through one same-package helper) inside at most one loop, i.e. one pass over one collection; an invocation nested in two or more loops (several collections, or caller-supplied keys) must be guarded by a look-up in a map made in that function (a 'seen' set), or be a recorded exception (one symbol, one reason). " +
+			"NOT decided: the meaning of each leaf constraint and of the leaf cases of the predicates (e.g. that a camliNodeType attribute constraint only matches that node type), matcher semantics per constraint kind, that the enumerators really enumerate a superset in the claimed order, that a single collection holds each blob once, the sort comparators and which slice is sorted, the Around window arithmetic, MapSort selection, any concrete world or query.",
 		RuleDocs: map[string]string{
 			"P-restrict":        "per planner predicate × Op label: contradiction rule over all acyclic paths — a may-restrict result derived from a recursive call needs Op==and, or Op==or with both operands restricting",
 			"P-nil-operand":     "per planner predicate: recursion on Logical.B only under Op in {and,or,xor} unless the predicate is nil-receiver tolerant",
@@ -40,6 +41,7 @@ func init() {
 			"P-match":           "per append to res.Blobs in the enumeration callback: dominated by matcher()==(true,nil)",
 			"P-limit":           "per result-losing action in the enumeration callback: on the matcher-error path or under fact cands.sorted",
 			"P-postsort":        "per SortType constant: unsorted source ⇒ sort call (or error) on every path from enumeration to a non-nil result",
+			"P-nodup":           "per corpus enumerator in the source table × callback invocation: loop depth <= 1, or guarded by a local seen-set look-up, or recorded exception",
 			"P-truncate":        "per SortType constant except MapSort: unsorted source and 0<Limit<len ⇒ bounded re-slice of res.Blobs on every path to a non-nil result",
 		},
 		Run:       runC08,
@@ -1230,6 +1232,152 @@ func c08RulePlanner(p *Program, r *Reporter, pick *ssa.Function, preds map[*ssa.
 }
 
 // ---------------------------------------------------------------------------
+// P-nodup
+
+// c08NoDupExceptions: enumerators whose nested loops provably visit disjoint
+// collections. One symbol, one reason.
+var c08NoDupExceptions = map[string]string{
+	"pkg/index.(*Corpus).EnumerateCamliBlobs": "c.camBlobs partitions the schema blobs by their own (single) CamliType: mergeMetaRow files a blob under bm.CamliType only, so the inner maps are disjoint",
+}
+
+// c08LoopDepth counts the natural loops containing block b.
+func c08LoopDepth(b *ssa.BasicBlock) int {
+	n := 0
+	for _, h := range b.Parent().Blocks {
+		if !h.Dominates(b) {
+			continue
+		}
+		in := false
+		for _, p := range h.Preds {
+			if !h.Dominates(p) {
+				continue
+			}
+			// back edge p->h: body = blocks reaching p without passing h
+			seen := map[*ssa.BasicBlock]bool{h: true}
+			var walk func(x *ssa.BasicBlock)
+			walk = func(x *ssa.BasicBlock) {
+				if seen[x] {
+					return
+				}
+				seen[x] = true
+				for _, q := range x.Preds {
+					walk(q)
+				}
+			}
+			walk(p)
+			if seen[b] {
+				in = true
+			}
+		}
+		if in {
+			n++
+		}
+	}
+	return n
+}
+
+type c08CbSite struct {
+	in    ssa.CallInstruction
+	fn    *ssa.Function
+	depth int
+	via   string
+}
+
+// c08CallbackSites finds where fn's parameter prm is invoked, following one
+// level of static pass-through helpers.
+func c08CallbackSites(fn *ssa.Function, prm *ssa.Parameter, outer int, via string, level int) (sites []c08CbSite, bad string) {
+	for _, c := range CallsIn(fn, true) {
+		cc := c.Common()
+		if !cc.IsInvoke() && originValue(cc.Value) == ssa.Value(prm) {
+			if c.Fn != fn {
+				return nil, "callback invoked from a function literal inside " + FuncKey(fn)
+			}
+			sites = append(sites, c08CbSite{c.Instr, fn, outer + c08LoopDepth(c.Block()), via})
+			continue
+		}
+		for i, a := range c.Args() {
+			if originValue(a) != ssa.Value(prm) {
+				continue
+			}
+			callee := c.Callee()
+			if callee == nil || callee.Blocks == nil || c.Fn != fn || level >= 2 || i >= len(callee.Params) {
+				return nil, "callback passed on to " + c.CalleeKey() + ", which the rule cannot follow"
+			}
+			sub, b := c08CallbackSites(callee, callee.Params[i], outer+c08LoopDepth(c.Block()), via+" -> "+FuncKey(callee), level+1)
+			if b != "" {
+				return nil, b
+			}
+			sites = append(sites, sub...)
+		}
+	}
+	return sites, ""
+}
+
+func c08SeenGuarded(s c08CbSite) bool {
+	for _, f := range FactsAt(s.in.Block()) {
+		if DependsOn(f.Cond, func(v ssa.Value) bool {
+			lk, ok := v.(*ssa.Lookup)
+			if !ok {
+				return false
+			}
+			_, isMake := originValue(lk.X).(*ssa.MakeMap)
+			return isMake
+		}) {
+			return true
+		}
+	}
+	return false
+}
+
+func c08RuleNoDup(p *Program, r *Reporter) {
+	var keys []string
+	for k := range c08SourceTable {
+		if !strings.HasPrefix(k, "iface:") {
+			keys = append(keys, k)
+		}
+	}
+	sort.Strings(keys)
+	for _, k := range keys {
+		fn := p.Func("pkg/index", "Corpus", k[strings.LastIndex(k, ".")+1:])
+		site := p.Pos(fn.Pos())
+		var cb *ssa.Parameter
+		for _, prm := range fn.Params {
+			if _, ok := prm.Type().Underlying().(*types.Signature); ok {
+				cb = prm
+			}
+		}
+		if cb == nil {
+			r.Undecided("P-nodup", k+"#callback", site, "enumerator has no callback parameter")
+			continue
+		}
+		sites, bad := c08CallbackSites(fn, cb, 0, FuncKey(fn), 0)
+		if bad != "" {
+			r.Undecided("P-nodup", k+"#callback", site, bad)
+			continue
+		}
+		if len(sites) == 0 {
+			r.Undecided("P-nodup", k+"#callback", site, "the enumerator never invokes its callback")
+			continue
+		}
+		for i, s := range sites {
+			c := fmt.Sprintf("%s#callback/%d", k, i+1)
+			at := p.Pos(s.in.Pos())
+			switch {
+			case s.depth <= 1:
+				r.OK("P-nodup", c, at, fmt.Sprintf("callback invoked at loop depth %d (%s): one pass over one collection", s.depth, s.via))
+			case c08SeenGuarded(s):
+				r.OK("P-nodup", c, at, fmt.Sprintf("callback invoked at loop depth %d under a look-up in a locally made seen-set", s.depth))
+			case c08NoDupExceptions[k] != "":
+				r.OKTable("P-nodup", c, at, fmt.Sprintf("loop depth %d, recorded exception: %s", s.depth, c08NoDupExceptions[k]))
+			default:
+				r.Violation("P-nodup", c, at, fmt.Sprintf("callback invoked at loop depth %d (%s) without a seen-set guard: a blob contained in several of the visited collections, or a key supplied twice by the planner, is handed to the matcher more than once and returned as a duplicate result", s.depth, s.via))
+			}
+		}
+	}
+	r.Floor("P-nodup", 7)
+}
+
+// ---------------------------------------------------------------------------
 // the executor (Query): P-match, P-limit, P-postsort, P-truncate
 
 type c08Exec struct {
@@ -1699,6 +1847,7 @@ func runC08(p *Program, r *Reporter) {
 
 	c08RulePredicates(p, r, preds)
 	c08RulePlanner(p, r, pick, predSet, sorts)
+	c08RuleNoDup(p, r)
 	execs := c08FindExec(p, r, pick)
 	if len(execs) == 0 {
 		r.Undecided("P-limit", FuncKey(pick)+"#executor", p.Pos(pick.Pos()), "no analysable caller of pickCandidateSource found")
